@@ -6,8 +6,9 @@ package main
 //	decapi|dechist v:<0|1> o:<opts> f:<factory> ops:<op,op,...> b:<hex> [r:<hex> ...]
 //
 //	<opts>    chk<0|1>,exp<0|1>,bo<0|1>,bc<0|1>,ml<0|1>,dl<0|1>,lw<0|1>,rbs<n>
-//	<factory> "-" | <entry>;<entry>;...   <entry> = <mesgNum>.<fieldNum>.<basetype 2 hex>.<flags>
+//	<factory> "-" | <entry>;<entry>;...   <entry> = <mesgNum>.<fieldNum>.<basetype 2 hex>.<flags>[:<comp>,<comp>,...]
 //	          flags: "-" or a subsequence of "abc" (a FieldBase.Array, b Type==profile.Bool, c Accumulate);
+//	          <comp> = <destination fieldNum>.<bits>.<a|-> (a: Component.Accumulate); scale 1 and offset 0 everywhere;
 //	          every (mesgNum, fieldNum) not listed is an unknown field (as factory.createUnknownField makes it)
 //	<op>      dec | decx (DecodeWithContext, live context) | decc (cancelled context) | pkh | pki | dis | nxt
 //	          | ci (CheckIntegrity, then the documented reader.Seek(0, io.SeekStart)) | rst<k> (Reset onto a new
@@ -118,6 +119,22 @@ func parseDapiFactory(s string) (*dapiFactory, bool) {
 		return f, true
 	}
 	for _, e := range strings.Split(s, ";") {
+		var comps []proto.Component
+		if i := strings.IndexByte(e, ':'); i >= 0 {
+			for _, cs := range strings.Split(e[i+1:], ",") {
+				cp := strings.Split(cs, ".")
+				if len(cp) != 3 || (cp[2] != "a" && cp[2] != "-") {
+					return nil, false
+				}
+				dst, err1 := strconv.ParseUint(cp[0], 10, 8)
+				bits, err2 := strconv.ParseUint(cp[1], 10, 8)
+				if err1 != nil || err2 != nil {
+					return nil, false
+				}
+				comps = append(comps, proto.Component{FieldNum: byte(dst), Bits: byte(bits), Accumulate: cp[2] == "a", Scale: 1, Offset: 0})
+			}
+			e = e[:i]
+		}
 		p := strings.Split(e, ".")
 		if len(p) != 4 {
 			return nil, false
@@ -128,7 +145,7 @@ func parseDapiFactory(s string) (*dapiFactory, bool) {
 		if err1 != nil || err2 != nil || err3 != nil || len(p[2]) != 2 {
 			return nil, false
 		}
-		fb := &proto.FieldBase{Name: "k", Num: byte(fn), BaseType: basetype.BaseType(bt), Type: profile.Uint8, Scale: 1}
+		fb := &proto.FieldBase{Name: "k", Num: byte(fn), BaseType: basetype.BaseType(bt), Type: profile.Uint8, Scale: 1, Components: comps}
 		if p[3] != "-" {
 			for _, c := range p[3] {
 				switch c {
@@ -546,17 +563,22 @@ type dapiFacEntry struct {
 	num     byte
 	bt      byte
 	flags   string
+	comps   string // "" or "<dst>.<bits>.<a|->,..." — destinations have larger field numbers (no cycles)
 }
 
 var dapiPool = []dapiFacEntry{
-	{0, 0, 0x00, "-"}, {0, 1, 0x84, "-"}, {0, 2, 0x84, "-"}, {0, 3, 0x8C, "-"}, {0, 4, 0x86, "-"}, {0, 5, 0x84, "-"}, {0, 8, 0x07, "-"},
-	{20, 253, 0x86, "-"}, {20, 3, 0x02, "-"}, {20, 2, 0x84, "c"}, {20, 5, 0x86, "c"}, {20, 0, 0x85, "-"}, {20, 1, 0x85, "-"},
-	{20, 6, 0x84, "-"}, {20, 8, 0x0D, "a"}, {20, 13, 0x01, "-"}, {20, 30, 0x00, "b"}, {20, 31, 0x02, "ab"}, {20, 40, 0x88, "-"}, {20, 41, 0x89, "-"},
-	{20, 42, 0x8E, "-"}, {20, 43, 0x8F, "a"}, {20, 44, 0x07, "a"}, {20, 45, 0x83, "a"}, {20, 46, 0x90, "-"}, {20, 47, 0x0A, "-"}, {20, 48, 0x8B, "a"},
-	{206, 0, 0x02, "-"}, {206, 1, 0x02, "-"}, {206, 2, 0x02, "-"}, {206, 3, 0x07, "a"}, {206, 8, 0x07, "a"},
-	{207, 3, 0x02, "-"}, {207, 1, 0x0D, "a"},
-	{18, 253, 0x86, "-"}, {18, 7, 0x86, "-"}, {18, 254, 0x84, "-"},
-	{65280, 253, 0x86, "-"}, {65280, 1, 0x84, "a"},
+	{0, 0, 0x00, "-", ""}, {0, 1, 0x84, "-", ""}, {0, 2, 0x84, "-", ""}, {0, 3, 0x8C, "-", ""}, {0, 4, 0x86, "-", ""}, {0, 5, 0x84, "-", ""}, {0, 8, 0x07, "-", ""},
+	// record-like message: altitude(2) -> enhanced_altitude(78); compressed_speed_distance(8, 3 bytes) -> speed(6, 12 bits) + distance(5, 12 bits,
+	// accumulated); speed(6) -> enhanced_speed(73); cycles(18) -> total_cycles(19, accumulated); an array destination (90) fed from 16-bit pieces
+	{20, 253, 0x86, "-", ""}, {20, 3, 0x02, "-", ""}, {20, 2, 0x84, "c", "78.16.-"}, {20, 5, 0x86, "c", ""}, {20, 0, 0x85, "-", ""}, {20, 1, 0x85, "-", ""},
+	{20, 6, 0x84, "-", "73.16.-"}, {20, 8, 0x0D, "a", "6.12.-,5.12.a"}, {20, 13, 0x01, "-", ""}, {20, 18, 0x02, "-", "19.8.a"}, {20, 19, 0x86, "-", ""},
+	{20, 30, 0x00, "b", ""}, {20, 31, 0x02, "ab", ""}, {20, 40, 0x88, "-", ""}, {20, 41, 0x89, "-", ""},
+	{20, 42, 0x8E, "-", "91.40.-,92.24.a"}, {20, 43, 0x8F, "a", ""}, {20, 44, 0x07, "a", ""}, {20, 45, 0x83, "a", "90.16.-,90.16.-,90.16.-"}, {20, 46, 0x90, "-", ""},
+	{20, 47, 0x0A, "-", ""}, {20, 48, 0x8B, "a", "93.3.a,94.70.-,95.0.-"}, {20, 73, 0x86, "-", ""}, {20, 78, 0x86, "-", ""}, {20, 90, 0x84, "a", ""}, {20, 91, 0x01, "-", ""}, {20, 92, 0x88, "-", ""}, {20, 93, 0x8E, "-", ""},
+	{206, 0, 0x02, "-", ""}, {206, 1, 0x02, "-", ""}, {206, 2, 0x02, "-", ""}, {206, 3, 0x07, "a", ""}, {206, 8, 0x07, "a", ""},
+	{207, 3, 0x02, "-", ""}, {207, 1, 0x0D, "a", ""},
+	{18, 253, 0x86, "-", "254.16.a"}, {18, 7, 0x86, "-", ""}, {18, 254, 0x84, "-", ""},
+	{65280, 253, 0x86, "-", ""}, {65280, 1, 0x84, "a", "2.4.a,3.4.-"},
 }
 
 var dapiMesgNums = []uint16{0, 20, 206, 207, 18, 65280, 65281, 49}
@@ -568,6 +590,9 @@ func dapiFacString(es []dapiFacEntry) string {
 	p := make([]string, len(es))
 	for i, e := range es {
 		p[i] = fmt.Sprintf("%d.%d.%02x.%s", e.mesgNum, e.num, e.bt, e.flags)
+		if e.comps != "" {
+			p[i] += ":" + e.comps
+		}
 	}
 	return strings.Join(p, ";")
 }
@@ -583,7 +608,11 @@ func dapiRandFactory(rng *Rng) []dapiFacEntry {
 	for _, e := range dapiPool {
 		if rng.Intn(3) != 0 {
 			if rng.Intn(6) == 0 { // perturb: other base type (also invalid ones) / flags
-				e.bt = []byte{0x00, 0x02, 0x84, 0x86, 0x07, 0x89, 0x0D, 0x8F, 0x55, 0x03, 0xFF}[rng.Intn(11)]
+				if e.comps == "" { // a field with components keeps an integer base type (makeBits of floats is platform-defined)
+					e.bt = []byte{0x00, 0x02, 0x84, 0x86, 0x07, 0x89, 0x0D, 0x8F, 0x55, 0x03, 0xFF}[rng.Intn(11)]
+				} else {
+					e.bt = []byte{0x00, 0x02, 0x84, 0x86, 0x01, 0x83, 0x0D, 0x8F, 0x8E, 0x8C}[rng.Intn(10)]
+				}
 				e.flags = []string{"-", "a", "b", "ab", "c", "ac"}[rng.Intn(6)]
 			}
 			es = append(es, e)
